@@ -80,5 +80,78 @@ m("m49-bitmap-fresh", ["C17"], DW, "        self.received.clear();\n        if s
 m("m50-new-ignores-work", ["C17"], H, "        let mut work = work.unwrap_or_default();\n        Self::reset_work(original_count, recovery_count, shard_bytes, &mut work)?;\n        Ok(Self { engine, work })\n    }\n\n    fn reset(\n        &mut self,\n        original_count: usize,\n        recovery_count: usize,\n        shard_bytes: usize,\n    ) -> Result<(), Error> {\n        Self::reset_work(original_count, recovery_count, shard_bytes, &mut self.work)\n    }\n}\n\n// ======================================================================\n// HighRateDecoder - PRIVATE", "        drop(work);\n        let mut work = DecoderWork::new();\n        Self::reset_work(original_count, recovery_count, shard_bytes, &mut work)?;\n        Ok(Self { engine, work })\n    }\n\n    fn reset(\n        &mut self,\n        original_count: usize,\n        recovery_count: usize,\n        shard_bytes: usize,\n    ) -> Result<(), Error> {\n        Self::reset_work(original_count, recovery_count, shard_bytes, &mut self.work)\n    }\n}\n\n// ======================================================================\n// HighRateDecoder - PRIVATE", "HighRateDecoder::new ignores the recycled working space")
 m("m51-decode-scratch-on-heap", ["C17"], H, "        let mut erasures = [0; GF_ORDER];\n\n        for i in 0..recovery_count {", "        let mut erasures: Box<[engine::GfElement; GF_ORDER]> = vec![0; GF_ORDER].into_boxed_slice().try_into().unwrap();\n\n        for i in 0..recovery_count {", "BENIGN refactor: decode keeps its 128 KiB erasure scratch on the heap (fixed size, not shard-proportional): must NOT be flagged")
 
+# ---- BENIGN refactors: the properties still hold; no check may flag them
+ALLP = [f"C{i:02d}" for i in range(1,18)]
+m("b01-detection-cached-in-static", ALLP, DE, """impl DefaultEngine {
+    /// Creates new [`DefaultEngine`] by chosing and initializing the underlying engine.""", """#[cfg(any(target_arch = "x86", target_arch = "x86_64"))]
+fn detected_features() -> (bool, bool) {
+    // runtime detection is done once per process
+    static DETECTED: std::sync::OnceLock<(bool, bool)> = std::sync::OnceLock::new();
+    *DETECTED.get_or_init(|| {
+        (
+            is_x86_feature_detected!("avx2"),
+            is_x86_feature_detected!("ssse3"),
+        )
+    })
+}
+
+impl DefaultEngine {
+    /// Creates new [`DefaultEngine`] by chosing and initializing the underlying engine.""", "BENIGN: CPU detection cached process-wide (then used by new() and eval_poly below)")
+m("b01b-detection-cached-used", ALLP, DE, """            if is_x86_feature_detected!("avx2") {
+                return Self(Box::new(Avx2::new()));
+            }
+
+            if is_x86_feature_detected!("ssse3") {
+                return Self(Box::new(Ssse3::new()));
+            }""", """            if is_x86_feature_detected!("avx2") {
+                return Self(Box::new(Avx2::new()));
+            }
+
+            if is_x86_feature_detected!("ssse3") {
+                return Self(Box::new(Ssse3::new()));
+            }
+            // (placeholder so that b01 and b01b can be combined by the driver)""", "placeholder")
+m("b02-resize-overallocates", ALLP, SH, """        self.data
+            .resize(self.shard_count * self.shard_len_64, [0; 64]);""", """        let new_len = self.shard_count * self.shard_len_64;
+        if new_len > self.data.capacity() {
+            // grow with some headroom so that slightly larger configurations fit later
+            self.data.reserve_exact(new_len + new_len / 4 - self.data.len());
+        }
+        self.data.resize(new_len, [0; 64]);""", "BENIGN: working space allocated with 25% headroom")
+m("b04-nosimd-one-layer-fft", ALLP, NS, """    ) {
+        self.fft_private(data, pos, size, truncated_size, skew_delta);
+    }""", """    ) {
+        // simple one-layer-at-a-time schedule (same contract: first truncated_size outputs are valid)
+        let mut dist = size / 2;
+        while dist > 0 {
+            let mut r = 0;
+            while r < truncated_size {
+                let log_m = self.skew[r + dist + skew_delta - 1];
+                for i in r..r + dist {
+                    let (a, b) = data.dist2_mut(pos + i, dist);
+                    if log_m != GF_MODULUS {
+                        self.mul_add(a, b, log_m);
+                    }
+                    utils::xor(b, a);
+                }
+                r += dist * 2;
+            }
+            dist /= 2;
+        }
+    }""", "BENIGN: NoSimd::fft uses the one-layer schedule of Naive (different garbage beyond truncated_size, same contract)")
+m("b05-encoder-reset-zeroes-everything", ALLP, EW, """        self.original_received_count = 0;
+        self.shards.resize(work_count, shard_bytes.div_ceil(64));
+    }""", """        self.original_received_count = 0;
+        self.shards.resize(work_count, shard_bytes.div_ceil(64));
+        self.shards.as_ref_mut().zero(..);
+    }""", "BENIGN: explicit reset additionally zeroes the whole working space")
+m("b06-decoder-bitmap-exact-regrow", ALLP, DW, """        self.received.clear();
+        if self.received.len() < max_received_pos {
+            self.received.grow(max_received_pos);
+        }""", """        self.received.clear();
+        if self.received.len() < max_received_pos {
+            self.received.grow(max_received_pos.next_power_of_two());
+        }""", "BENIGN: received bitmap grown to the next power of two")
+
 json.dump(M, open(os.path.join(os.path.dirname(os.path.abspath(__file__)), "mutants.json"), "w"), indent=1)
 print(len(M), "mutants")
